@@ -61,7 +61,7 @@ type spec struct {
 
 type leaf struct {
 	name  string
-	class string // basic | named-basic | duration | time | bytes | named-composite | error | any
+	class string // basic | named-basic | duration | time | bytes | named-composite | named-key-map | error | any
 	t     reflect.Type
 	vals  []namedVal
 }
@@ -131,6 +131,8 @@ func leaves() []*leaf {
 		mk("named-composite", "NInts", []string{"nil", "ord"}, NInts(nil), NInts{1, -2}),
 		mk("named-composite", "NMap", []string{"nil", "ord"}, NMap(nil), NMap{"k": 1}),
 		mk("named-composite", "NStruct", []string{"zero", "ord"}, NStruct{}, NStruct{A: 4}),
+		// a string-keyed map whose key type is a named string (kind String, so the bridge accepts the type)
+		mk("named-key-map", "map[NString]int", []string{"nil", "ord"}, map[NString]int(nil), map[NString]int{"k": 1}),
 	}
 }
 
